@@ -99,6 +99,21 @@ func VerifC15Mul() {
 	vReach("end")
 }
 
+// Inverse (binary extended Euclid on Montgomery representation): decided by a loop invariant at the two loop heads
+// (checks/c15inv.py); natively the result is judged against R^2 * x^-1 mod r.
+func VerifC15Inverse() {
+	x := c15elem("x")
+	var z Element
+	if vParamInt("alias") == 1 {
+		z = x
+		z.Inverse(&z)
+	} else {
+		z.Inverse(&x)
+	}
+	vNote("z", z)
+	vReach("end")
+}
+
 func VerifC15FromMont() {
 	x := c15elem("x")
 	_fromMontGeneric(&x)
